@@ -521,6 +521,9 @@ def cases(rng, tier):
             skipped += 1
             continue
         out.append(dict(kind='call', call=call, muts=[list(m) for m in muts], valid=valid))
+    # valid calls at the corners of the documented domain (no mutation): they must not crash either
+    for call in catalog.directed_extreme_calls(rng):
+        out.append(dict(kind='call', call=call, muts=[], valid=call))
     gf = guard_functions()
     full = {f.split('.')[-1]: f for f in fns}
     gf = [full[g] for g in gf if g in full]
